@@ -7,14 +7,18 @@ import (
 	"errors"
 	"fmt"
 	"math/big"
+	"net"
 	"sort"
 	"strings"
 	"sync"
 	"time"
 
 	"github.com/Factom-Asset-Tokens/factom"
+	"github.com/pegnet/pegnetd/config"
 	"github.com/pegnet/pegnetd/fat/fat2"
 	"github.com/pegnet/pegnetd/node"
+	"github.com/pegnet/pegnetd/srv"
+	"github.com/spf13/viper"
 	"verif/lab/forge"
 	"verif/lab/gen"
 	"verif/lab/harness"
@@ -674,6 +678,67 @@ func isScheduledIssuanceAddress(a factom.FAAddress) bool {
 	return scheduledAddrs[a]
 }
 
+// installRetries makes blocks fail once (or twice) before they are applied, without changing what they must
+// do: (a) the first request for the block's directory block is answered with HTTP 500 (the attempt ends
+// before anything is written, after whatever the sync loop does before fetching); (b) the last statement
+// before COMMIT - the sync-height update - fails (everything of the block has been executed, the
+// transaction is rolled back, the same process applies the block again). Heights: (a) every 4th, (b) every
+// other 4th, both at every activation and snapshot height. Whatever the daemon keeps in memory must not
+// make a later attempt differ from a first one. Returns the function that removes the hooks.
+func installRetries(n *harness.Node, r *orch.Result, seed int64, e forge.Eras) func() {
+	special := map[uint32]bool{}
+	for _, a := range []uint32{e.GradingV2, e.TxConv, e.PEGPricing, e.OneWaypFCT, e.ConversionLimit, e.V4, e.V20, e.V20Dev, e.V202, e.V204, e.V204Burn, e.PIP10} {
+		special[a] = true
+	}
+	var mu sync.Mutex
+	failedDB := map[uint32]bool{}
+	failedUp := map[uint32]bool{}
+	pick := func(h uint32, k int64) bool {
+		return special[h] || (h >= e.V20 && h%144 == 0) || (int64(h)+seed)%4 == k
+	}
+	n.Fake.SetFault(func(rq harness.Req) harness.Fault {
+		if rq.Method != "dblock-by-height" || rq.Height != rq.Cur || rq.Height <= e.Pegnet {
+			return harness.Fault{}
+		}
+		mu.Lock()
+		defer mu.Unlock()
+		if pick(rq.Height, 2) && !failedUp[rq.Height] {
+			failedUp[rq.Height] = true
+			r.Count("blocks_retried_after_a_failed_dblock_fetch", 1)
+			return harness.Fault{Kind: harness.HTTP500}
+		}
+		return harness.Fault{}
+	})
+	vdriver.Set(&vdriver.Hooks{Decide: func(ev *vdriver.Event) (vdriver.Action, time.Duration) {
+		if !ev.InTx || ev.Kind != vdriver.KExec || !strings.HasPrefix(ev.SQL, "REPLACE INTO pn_metadata") || len(ev.Args) != 2 {
+			return vdriver.Proceed, 0
+		}
+		var bs struct{ Synced uint32 }
+		var raw []byte
+		switch x := ev.Args[1].(type) {
+		case []byte:
+			raw = x
+		case string:
+			raw = []byte(x)
+		}
+		if json.Unmarshal(raw, &bs) != nil || bs.Synced == 0 {
+			return vdriver.Proceed, 0
+		}
+		mu.Lock()
+		defer mu.Unlock()
+		if pick(bs.Synced, 0) && !failedDB[bs.Synced] {
+			failedDB[bs.Synced] = true
+			r.Count("blocks_applied_twice_after_a_late_failure", 1)
+			return vdriver.FailInstead, 0
+		}
+		return vdriver.Proceed, 0
+	}})
+	return func() {
+		vdriver.Set(nil)
+		n.Fake.SetFault(nil)
+	}
+}
+
 func assetClass(t fat2.PTicker) string {
 	switch {
 	case t == fat2.PTickerPEG:
@@ -742,36 +807,31 @@ func modelRun(j *orch.Job, r *orch.Result) error {
 	}
 	defer n.Stop()
 	if retries {
-		// every few blocks the last statement before COMMIT (the sync-height update) fails once: the block is
-		// rolled back and applied again by the same process. Whatever the daemon keeps in memory must not make
-		// the second attempt differ from a first one - every effect of the block still happens exactly once.
-		var mu sync.Mutex
-		failed := map[uint32]bool{}
-		vdriver.Set(&vdriver.Hooks{Decide: func(ev *vdriver.Event) (vdriver.Action, time.Duration) {
-			if !ev.InTx || ev.Kind != vdriver.KExec || !strings.HasPrefix(ev.SQL, "REPLACE INTO pn_metadata") || len(ev.Args) != 2 {
-				return vdriver.Proceed, 0
+		defer installRetries(n, r, p.Seed, e)()
+	}
+	apiPort := 0
+	if containsStr(p.Features, "api-reads") {
+		// the daemon also answers read-only API requests between blocks (rich lists first of all: they go
+		// through the rolling-average cache the sync loop uses): what the rules demand of a block does not
+		// depend on who asked the daemon what
+		apiPort = freePort()
+		conf := viper.New()
+		conf.Set(config.APIListen, fmt.Sprintf("127.0.0.1:%d", apiPort))
+		srv.NewAPIServer(conf, n.P).Start(make(chan struct{}))
+		for i := 0; i < 200; i++ {
+			if cn, err := net.Dial("tcp", fmt.Sprintf("127.0.0.1:%d", apiPort)); err == nil {
+				cn.Close()
+				break
 			}
-			var bs struct{ Synced uint32 }
-			var raw []byte
-			switch x := ev.Args[1].(type) {
-			case []byte:
-				raw = x
-			case string:
-				raw = []byte(x)
-			}
-			if json.Unmarshal(raw, &bs) != nil || bs.Synced == 0 {
-				return vdriver.Proceed, 0
-			}
-			mu.Lock()
-			defer mu.Unlock()
-			if (int64(bs.Synced)+p.Seed)%4 == 0 && !failed[bs.Synced] {
-				failed[bs.Synced] = true
-				r.Count("blocks_applied_twice_after_a_late_failure", 1)
-				return vdriver.FailInstead, 0
-			}
-			return vdriver.Proceed, 0
-		}})
-		defer vdriver.Set(nil)
+			time.Sleep(5 * time.Millisecond)
+		}
+	}
+	apiQs := []apiQuery{
+		{"rich-list", "get-rich-list", map[string]interface{}{"asset": "pXBT", "count": 5}},
+		{"rich-list", "get-rich-list", map[string]interface{}{"asset": "PEG", "count": 5}},
+		{"global-rich-list", "get-global-rich-list", map[string]interface{}{"count": 5}},
+		{"issuance", "get-pegnet-issuance", nil},
+		{"rates", "get-pegnet-rates", map[string]interface{}{}},
 	}
 	n.Run()
 	mon, err := NewMonitor(e, p.Window, n.RO, r, p.Seed)
@@ -779,7 +839,17 @@ func modelRun(j *orch.Job, r *orch.Result) error {
 		return err
 	}
 	err = gen.Drive(n, m, m.W, tip, harness.WaitOpts{}, func(h uint32, b *forge.Block) error {
-		return mon.AfterBlock(b)
+		if err := mon.AfterBlock(b); err != nil {
+			return err
+		}
+		if apiPort != 0 && h >= e.TxConv {
+			for _, q := range apiQs {
+				if _, err := callAPI(apiPort, q); err == nil {
+					r.Count("api_requests_between_blocks", 1)
+				}
+			}
+		}
+		return nil
 	})
 	if err == nil && containsStr(p.Features, "c17-final") {
 		if ferr := historyFold(n.RO, e, r, p.Seed); ferr != nil {
